@@ -787,6 +787,84 @@ func main() {
 	scan(authz, "authorizer.go", "authorizer", "biscuit")
 	emitPairsAllowEmpty("shared_write_sites", sharedWrites)
 
+	// ---- C11(c): the synchronisation skeleton of datalog.go that Model/ChanLTS.v abstracts:
+	// every channel created with make (name, capacity) and every send statement
+	// (function, channel, "select:<other cases>" or "bare")
+	var chanMakes, chanSends [][2]string
+	for _, d := range dl.Decls {
+		fd, ok := d.(*ast.FuncDecl)
+		if !ok || fd.Body == nil {
+			continue
+		}
+		fname := fd.Name.Name
+		// assignments x := make(chan T[, n])
+		ast.Inspect(fd.Body, func(n ast.Node) bool {
+			as, ok := n.(*ast.AssignStmt)
+			if !ok || len(as.Lhs) != 1 || len(as.Rhs) != 1 {
+				return true
+			}
+			ce, ok := as.Rhs[0].(*ast.CallExpr)
+			if !ok {
+				return true
+			}
+			if id, ok := ce.Fun.(*ast.Ident); ok && id.Name == "make" && len(ce.Args) >= 1 {
+				if _, isChan := ce.Args[0].(*ast.ChanType); isChan {
+					capS := "0"
+					if len(ce.Args) == 2 {
+						capS = exprString(ce.Args[1])
+					}
+					chanMakes = append(chanMakes, [2]string{fname + ":" + exprString(as.Lhs[0]), capS})
+				}
+			}
+			return true
+		})
+		// sends, with their select context
+		var walk func(n ast.Node, sel string)
+		walk = func(n ast.Node, sel string) {
+			ast.Inspect(n, func(m ast.Node) bool {
+				switch x := m.(type) {
+				case *ast.SelectStmt:
+					// describe the receive cases of this select
+					var recv []string
+					for _, c := range x.Body.List {
+						cc := c.(*ast.CommClause)
+						if cc.Comm == nil {
+							recv = append(recv, "default")
+							continue
+						}
+						if es, ok := cc.Comm.(*ast.ExprStmt); ok {
+							if ue, ok := es.X.(*ast.UnaryExpr); ok && ue.Op == token.ARROW {
+								recv = append(recv, "recv "+exprString(ue.X))
+							}
+						}
+						if as, ok := cc.Comm.(*ast.AssignStmt); ok && len(as.Rhs) == 1 {
+							if ue, ok := as.Rhs[0].(*ast.UnaryExpr); ok && ue.Op == token.ARROW {
+								recv = append(recv, "recv "+exprString(ue.X))
+							}
+						}
+					}
+					ctx := "select:" + strings.Join(recv, ",")
+					for _, c := range x.Body.List {
+						cc := c.(*ast.CommClause)
+						if ss, ok := cc.Comm.(*ast.SendStmt); ok {
+							chanSends = append(chanSends, [2]string{fname + ":" + exprString(ss.Chan), ctx})
+						}
+						for _, st := range cc.Body {
+							walk(st, "bare")
+						}
+					}
+					return false
+				case *ast.SendStmt:
+					chanSends = append(chanSends, [2]string{fname + ":" + exprString(x.Chan), sel})
+				}
+				return true
+			})
+		}
+		walk(fd.Body, "bare")
+	}
+	emitPairsAllowEmpty("dl_chan_makes", chanMakes)
+	emitPairsAllowEmpty("dl_chan_sends", chanSends)
+
 	if err := os.WriteFile(os.Args[2], []byte(out.String()), 0o644); err != nil {
 		die("%v", err)
 	}
